@@ -34,6 +34,7 @@ void ledger_reset(void);
 int ledger_live(void);
 size_t ledger_live_bytes(void);
 unsigned char *hexbuf(const char *tok, size_t *len);
+void hfree(void *p);
 void out_hex(const unsigned char *p, size_t n);
 long long tok_ll(const char *t);
 unsigned long long tok_ull(const char *t);
